@@ -59,7 +59,27 @@ def generate_once(d, cse):
     if pm is None:
         with contextlib.redirect_stdout(io.StringIO()):
             pm = python.compile(b["model"], b["calibration_map"], config=python.Config(common_subexpression_elimination=cse))
+    # behavioural probe of the layout: named inputs -> named outputs at a fixed point (9 significant digits)
+    import numpy as np
+
+    def fmt(a):
+        return ["%.9g" % v for v in np.asarray(a, dtype=float).flatten()]
+
+    names = sorted(d["state"])
+    st = pe.State(**{n: 0.3 + 0.1 * i for i, n in enumerate(names)})
+    ctl = pe.Control(**{n: -0.2 + 0.15 * i for i, n in enumerate(sorted(d["control"]))})
+    probe = {}
+    with contextlib.redirect_stdout(io.StringIO()):
+        try:
+            o = pe.process_model(0.07, st, pe.Covariance(), ctl)
+            probe["predict"] = [fmt(o[0].data), fmt(o[1].data)]
+            for k_ in sorted(pe.sensor_models):
+                probe["h:" + str(k_)] = fmt(pe.sensor_models[k_].model(st).data)
+                probe["H:" + str(k_)] = fmt(pe.sensor_jacobian(k_, st))
+        except Exception as e:  # noqa: BLE001
+            probe["error"] = type(e).__name__
     layout = {
+        "probe": probe,
         "Model.arglist": [str(a) for a in pm.arglist],
         "EKF.state": [str(a) for a in pe.arglist_state], "EKF.control": [str(a) for a in pe.arglist_control], "EKF.calibration": [str(a) for a in pe.arglist_calibration],
         "readings": {k: [str(r) for r in pe.sensor_models[k].readings] for k in sorted(pe.sensor_models)},
@@ -73,7 +93,9 @@ def generate_once(d, cse):
 def main():
     job = json.load(sys.stdin)
     out = []
-    for mi, d in enumerate(job["models"]):
+    order = job.get("order") or list(range(len(job["models"])))
+    for mi in order:
+        d = job["models"][mi]
         for vi, variant in enumerate(job["variants"]):
             dv = permuted(d, variant)
             try:
